@@ -96,7 +96,12 @@ def check(ctx):
     for s in wraps:
         report_problems(ctx, "R3", s)
         f = s.fact
-        g_ok = len(f.guards) == 1 and f.guards[0][1] is True and m.is_has_thermal(f.guards[0][0])
+        slot0 = ("sub", m.JAC, simp(f.index))
+        sentinel_guard = (("cmp", ("Eq",), (slot0, ("const", "0.0"))), False)      # `if entry != '0.0': entry = wrap(entry)`
+        gs = [(simp(c), p) for c, p in f.guards]
+        cond_store = sentinel_guard in gs
+        rest = [g for g in gs if g != sentinel_guard]
+        g_ok = len(rest) == 1 and rest[0][1] is True and m.is_has_thermal(rest[0][0])
         ctx.check(g_ok, "R3", "jacrhs:wrap:guard", where(s), "wrap applied under `if has_thermal` only")
         rng_ok = s.row == ("tgas",) and s.col and s.col[0] == "range" and len(s.col[1]) == 1 and m.is_n_spec(s.col[1][0]) and len(f.loops) == 1
         ctx.check(bool(rng_ok), "R3", "jacrhs:wrap:range", where(s), "wrap visits row n_spec, columns range(n_spec), once each",
@@ -105,6 +110,9 @@ def check(ctx):
         slot = ("sub", m.JAC, simp(f.index))
         form_ok = False
         found = show(v)[:200]
+        if cond_store and v[0] != "ifexp":
+            # the same wrap as a conditional store: the sentinel is preserved by not touching the entry
+            v = ("ifexp", ("cmp", ("Eq",), (slot, ("const", "0.0"))), ("const", "0.0"), v)
         if v[0] == "ifexp":
             c, a, b = v[1], v[2], v[3]
             if c == ("cmp", ("NotEq",), (slot, ("const", "0.0"))):
